@@ -154,8 +154,8 @@ type Engine struct {
 	// kept: the request last handled per resource name, kept past the
 	// return of its handler (guarded by H.mu)
 	kept map[string]res.Resource
-	cur        atomic.Int32 // current epoch index
-	Conn       *simconn.Conn
+	cur  atomic.Int32 // current epoch index
+	Conn *simconn.Conn
 
 	actorsDone atomic.Int32
 	nActors    int
